@@ -4,6 +4,7 @@ From GN Require Import Common.Base Common.Int64 Model.VC Gen.BufferVC Gen.OtherV
   Model.BufferTypes Gen.BufferMethods Model.Buffer Spec.BufferNumSpec Proofs.BufferGuards Proofs.BufferNumRefine Proofs.BufferNumExtra
   Model.Codecs Gen.BufferCodecs Model.BufferStrings Spec.BufferStringsSpec Proofs.BufferStringsProofs.
 From Coq Require Import String.
+From GN Require Import Model.BufferSrc.
 Open Scope Z_scope.
 
 (* every index, slice and make in the Buffer natives (numeric methods, toString, write, alloc/fill, from) — the list is
@@ -56,3 +57,9 @@ Proof.
   - unfold to_string. rewrite Ec. discriminate.
 Qed.
 Print Assumptions C09_toString_never_traps.
+
+(* ... and that theorem is about the fill/alloc/toString/write code as it is now: the text of the string entry points is the
+   one the model was written against (regenerated from buffer.go on every run) *)
+Theorem C09_strings_source_tie : buffer_strings_src = expected_buffer_strings_src.
+Proof. vm_compute. reflexivity. Qed.
+Print Assumptions C09_strings_source_tie.
